@@ -206,6 +206,16 @@ SoakFailed(e) ==
   \cup Chk("C12.reset_nopanic", e.panic = "")
   \cup Chk("C14.reported", e.ret = 0)
 
+(* Very many one-shot streams (Write, Close) at the encoders' output-piece   *)
+(* boundaries, judged in the worker against compress/flate and summarised:   *)
+(* e.n streams, e.ret of them panicked, were refused or did not round-trip.  *)
+BulkFailed(e) ==
+     Chk("C16.nopanic", e.panic = "")
+  \cup Chk("C01.nocrash", e.panic = "")
+  \cup Chk("C01.close_complete", e.ret = 0)
+  \cup Chk("C01.close_std", e.ret = 0)
+  \cup Chk("C16.first_close_valid", e.ret = 0)
+
 (* Constructors that mirror the standard library accept and reject the same *)
 (* levels.                                                                  *)
 CtorFailed(e) ==
